@@ -104,7 +104,7 @@ def r1(R):
 
 @rule('C12.R2', 'rollback order: abort registered objects, disown objects '
       'created later, capture the index, reset, invalidate the captured '
-      'index', min_instances=1)
+      'index', props=['C14'], min_instances=1)
 def r2(R):
     conn = R.prog.cls(CONN)
     f = R.method(conn, '_rollback_savepoint')
